@@ -15,7 +15,7 @@ LEVEL_TEXT = {
     "C04": "Lean 4 theorems: machine_has_is_definition — the predicate has(path [op v][, f...]) as built by the library (a for-loop over next() of a nested traverser) returns what the specification hasS (first success over the definition's answer in selection order, functions right-to-left) returns, for every document, candidate, quiet path, operator and function chain, budget outcomes aside, and outright (machine_has_is_definition_exact) when 6*examinations+3 of the nested search is below the budget; has-predicates emit only clean, stamped events (so they compose as filters); equations of has_all/has_any/has_not (short-circuit, has_all()=True, has_any()=False, raise propagation). Tie compares results, conversion-call order and exception chains.",
     "C05": "Lean 4 theorems over the API model: get_match is the head of the drained iterator and (getMatch_is_head_of_eval) the head of the definition's answer, not-found iff the answer is empty; get is its data; not-found outcomes per data source; a callable default is called exactly once; found values are never replaced by the default. Tie runs all four functions on the same (path, source).",
     "C07": "Lean 4 theorems on the machine model for every path/document/source: StopIteration only comes from the done action, which leaves the state unchanged, hence an exhausted iterator stays exhausted (needs fix F1); k successful next() calls yield the first k results of the definition and everything done so far is a prefix of the specification's event stream (laziness: first_k_results, first_k_results_any_predicate for raising predicates, work_so_far_is_a_prefix); iterators are values (no interference). Tie: per-next() segments of results and predicate calls python = specification, traced and untraced; interleavings and OS threads are python-side support (partial: thread pre-emption is runtime).",
-    "C11": "Lean 4 theorems: for parent-free nodes path_as_str is '$' + segments of the location, path_match_list starts at the root, ends at the match, has one element per level, its names are the location and every link is a child of the previous element; round trip (get_match_of_path_finds_it): evaluating the steps Match.path denotes from the root yields exactly that match on documents with unique dict keys; never_the_same_location_twice: plain steps with at most one rec and no comma list yield pairwise distinct locations. Tie compares every Match observable; == (and duplicate-freedom again) are python-side oracles.",
+    "C11": "Lean 4 theorems: for parent-free nodes path_as_str is '$' + segments of the location, path_match_list starts at the root, ends at the match, has one element per level, its names are the location and every link is a child of the previous element; round trip (get_match_of_path_finds_it): evaluating the steps Match.path denotes from the root yields exactly that match on documents with unique dict keys; never_the_same_location_twice: plain steps with at most one rec and no comma list yield pairwise distinct locations. eq_iff_chains: Match.__eq__ (modelled as matchEq, which satisfies the recursive equation the code is written as) is the element-wise comparison of the two path_match_lists. Tie compares every Match observable and the == matrices of the first matches (python vs model); duplicate-freedom and == are re-checked on the python side.",
     "C12": "Lean 4 theorem evalE_append: for p not ending in rec, evaluating p++q equals evaluating q from each result of p in order, exceptions included (sequential monad associativity); nested roots are transparent bookkeeping nodes; nested_machine: the traverser started from a Match yields the definition's answer relative to it; tie runs all four API functions from the k-th match of p.",
     "C13": "Lean 4 theorems: remembered_parent moves to the location with the last name dropped however the node was reached (child/imag/par), is none exactly at the root location, n parent steps climb n levels or select nothing (needs fix F2); machine_climbs end to end; tie compares locations incl. the '<-name' trail.",
     "C17": "Lean 4 theorems: trace_is_stream — the events the traverser model hands to the trace callback, driven to exhaustion, are exactly the specification's stream (one event per match attempt carrying what the vertex returned, results after their attempts); stamping keeps the innermost candidate and never alters the attempt; the machine model has no trace input (transparency by construction, checked on the python side traced vs untraced). Property-level comparison: leaf events and stamps; tie: the full event stream.",
